@@ -23,6 +23,11 @@ def analyse(seed):
     for g in spec['geos']:
       if g['group'] == 1:
         g['cost'] = [float(4 * (1 + g['id'] % 3))] * len(g['cost'])
+  if spec['scenario'] == 'variable' and kind == 'plain' and r3.random() < 0.3:
+    kind = 'dark-control'                   # the control group never spends; the treatment group has a base spend in the pre-period too
+    for g in spec['geos']:
+      if g['group'] == 1:
+        g['cost'] = [0.0] * len(g['cost'])
   if kind == 'spike':           # control spike on the first test date: the cumulative scale decreases afterwards
     for g in spec['geos']:
       if g['group'] == 1:
